@@ -432,4 +432,22 @@ def deleteAt (l : List β) (i : Int) : List β := l.eraseIdx i.toNat
 /-- `b ** e` for a non-negative integer exponent -/
 def ipow (b e : Int) : Int := b ^ e.toNat
 
+/-! ### vocabulary of the translated `ShapleyOracle.__init__` (`GenD.oracle_init`) -/
+
+/-- `itertools.chain(l, [None])` -/
+def chainNone (l : List Int) : List (Option Int) := l.map some ++ [none]
+/-- `tuple(np.eye(n, dtype=int)[k])`: the `k`-th unit vector of length `n` -/
+def eyeRow (n k : Int) : List Int := (range 0 n 1).map (fun i => if i = k then (1 : Int) else 0)
+
+/-! ### vocabulary of the translated failure handler of the utilities (`GenK.utility_call`) -/
+
+/-- what a guarded piece of code did, seen from its `try … except (handled…)` under `simplefilter("error", category=W)` for the categories `escalated`:
+`.ok (some x)`: it returned `x` (a warning of a category that is not escalated is ignored); `.ok none`: it raised a class of the `except` clause (directly or as an
+escalated warning); `.error cls`: another class, which propagates -/
+def outcome (handled escalated : List String) (o : Out α) : Except String (Option α) :=
+  match o with
+  | .val x => .ok (some x)
+  | .exc c => if handled.contains c then .ok none else .error c
+  | .warn c x => if escalated.contains c then (if handled.contains c then .ok none else .error c) else .ok (some x)
+
 end Np
